@@ -17,7 +17,7 @@
 
    The check is evaluated by the harness on every circuit of the model comparison (coverage is reported in the evidence), and
    `elab_example_ok` below shows a circuit with every instruction family inside it.  Not covered (elab returns None):
-   correlated-error chains, explicit non-positive flip probabilities, noisy MPP. *)
+   explicit non-positive flip probabilities, noisy MPP. *)
 From Coq Require Import ZArith QArith Qcanon List Bool String Ring.
 Import ListNotations.
 Require Import TV.Base.EP TV.Base.Amp TV.Model.Lane TV.gen.Gen_instructions TV.Model.GateCheck TV.Model.InstrCheck TV.Model.Parse
@@ -206,7 +206,11 @@ Definition elab_instr (aux nmeas : nat) (i : instr) : option (list cinstr) :=
     | [], Some prods => Some (flat_map (fun pr => mpp_circuit aux (fst pr) (snd pr)) prods)
     | _, _ => None
     end
-  else if String.eqb name "E" || String.eqb name "ELSE_CORRELATED_ERROR" then None
+  else if String.eqb name "E" || String.eqb name "ELSE_CORRELATED_ERROR" then        (* one element of a correlated-error chain *)
+    match all_some (map (fun t => match t with TPauli P q _ => Some (P, q) | _ => None end) (itargets i)), iargs i with
+    | Some pq, p :: _ => Some [CE (String.eqb name "E") pq p 0]
+    | _, _ => None
+    end
   else
     match assoc name gate_table with
     | None => None
@@ -227,7 +231,20 @@ Fixpoint elab_from (aux : nat) (s : pstate) (c : list instr) : option (list cins
       | _, _ => None
       end
   end.
-Definition elab_circuit (aux : nat) (c : list instr) : option (list cinstr) := elab_from aux (mkPS [] 0 [] []) c.
+(* the chain bit of an element is numbered when the chain is closed (next E or end of the program): error bits that other
+   channels take in between come first (Model/Parse.fix_corr does the same on the lane program) *)
+Fixpoint fix_cs (cs : list cinstr) : list cinstr * Z :=
+  match cs with
+  | [] => ([], 0%Z)
+  | i :: r =>
+      let '(r', acc) := fix_cs r in
+      match i with
+      | CE first tg p rel => (CE first tg p (rel + acc)%Z :: r', if first then 0%Z else acc)
+      | _ => (i :: r', match cinstr_ops i with Some o => (acc + snd (fix_corr o))%Z | None => acc end)
+      end
+  end.
+Definition elab_circuit (aux : nat) (c : list instr) : option (list cinstr) :=
+  match elab_from aux (mkPS [] 0 [] []) c with Some cs => Some (fst (fix_cs cs)) | None => None end.
 
 (* the decidable tie: the parse model accepts the text and draws exactly the lane program of the elaborated circuit *)
 Definition parse_is_circuit (aux : nat) (c : list instr) (cs : list cinstr) : bool :=
@@ -300,7 +317,12 @@ Definition elab_example : list instr :=
     mkI "PAULI_CHANNEL_1" [1 # 8; 1 # 16; 1 # 32] TagNone [TQ 2 false];
     mkI "DEPOLARIZE2" [1 # 8] TagNone [TQ 0 false; TQ 1 false];
     mkI "MPP" [] TagNone [TPauli PX 0 false; TComb; TPauli PZ 1 true; TPauli PY 2 false];
+    mkI "E" [1 # 4] TagNone [TPauli PX 0 false; TPauli PY 2 false];
+    mkI "ELSE_CORRELATED_ERROR" [1 # 2] TagNone [TPauli PZ 1 false];
+    mkI "Z_ERROR" [1 # 8] TagNone [TQ 0 false];
+    mkI "ELSE_CORRELATED_ERROR" [1 # 8] TagNone [TPauli PY 1 false; TPauli PX 2 false];
     mkI "MRX" [1 # 16] TagNone [TQ 2 true];
+    mkI "E" [1 # 16] TagNone [TPauli PZ 2 false];
     mkI "RY" [] TagNone [TQ 0 false];
     mkI "S_DAG" [] TagT [TQ 0 false];
     mkI "I" [] (TagRot "R_X" [mkE 1 2 0 0]) [TQ 0 false; TQ 1 false];
